@@ -501,7 +501,7 @@ Proof.
   pose proof (ti_inv _ _ _ _ _ _ T) as I. fold s in I.
   pose proof (iv_last _ _ _ I) as HL. fold lst in HL.
   pose proof (sp_grab_spec n s _ f Hn I ltac:(lia) ltac:(lia)) as G. rewrite HL in G.
-  split; [exact HL|].
+  split; [exact HL|]. pose proof SZ_pos as Hp.
   destruct (Z.ltb_spec lst f) as [C1|C1]; [|destruct (Z.leb_spec f (lst - SPECTATOR_BUFFER_SIZE)) as [C2|C2]]; rewrite G.
   - split; [split; [lia|reflexivity]|]. split; [split; [discriminate|lia]|]. split; [discriminate|lia].
   - split; [split; [discriminate|lia]|]. split; [split; [lia|reflexivity]|]. split; [discriminate|lia].
